@@ -34,7 +34,10 @@ func main() {
 		"is consulted first and raises violations with the op log as replay. counter: (limit, interval, timestamp-step) sequences on " +
 		"RequestCounter.Add; backoff: random configurations, client sequences, CountResponses at estimate multiples and allowlist updates on " +
 		"Backoff plus a twin limiter that only sees one subnet; proflim: DefaultRatelimiter; mw: production stack on five protocols; libmw: " +
-		"ratelimit.Middleware; timed: sleep-grid schedules for expiry, backoff duration, profile window; cross: monitor vs model on exactly " +
+		"ratelimit.Middleware; vtime / vtime-prof / half of mw: virtual time — the verif hooks age the limiter's stamps and cache expiries, so histories " +
+		"spanning many windows, periods and durations run in microseconds (ages are whole units, boundaries half units, slow cases discarded); " +
+		"conc: goroutines on one RequestCounter / one warm bucket, pass count must equal the sequential one; consul: HTTP records -> " +
+		"AllowlistUpdater.Refresh -> DynamicAllowlist -> Backoff; timed: sleep-grid schedules for expiry, backoff duration, profile window; cross: monitor vs model on exactly " +
 		"timed synthetic histories. A case is non-trivial when at least one event was dropped and one passed; distinct = distinct op logs"
 	m := hlib.StartModel(o.Model, "C09")
 	defer m.Close()
@@ -44,6 +47,11 @@ func main() {
 	profLimCampaign(o, r, m)
 	mwCampaign(o, r, m)
 	libmwCampaign(o, r, m)
+	vtimeCampaign(o, r, m)
+	vtimeProfCampaign(o, r, m)
+	vtimeExhaustive(o, r, m)
+	concCampaign(o, r, m)
+	consulCampaign(o, r, m)
 	timedCampaign(o, r, m)
 	crossCampaign(o, r, m)
 	backoffExpiryFinding(o, r)
@@ -614,8 +622,19 @@ func mwCampaign(o *hlib.Opts, r *hlib.Result, m *hlib.Model) {
 		n = 2000
 	}
 	ctx := context.Background()
+	// In virtual-time cases (every other one) the unit is 10 ms: windows of
+	// 105/305 ms, backoff durations of 255/405 ms, the profile's second; ages are
+	// multiples of 10 ms and a case must finish within 4 ms of real time.
+	const vtUnit = 10 * time.Millisecond
+	vtAges := []int64{1, 5, 10, 11, 20, 25, 26, 30, 31, 40, 41, 60, 99, 100, 101, 150}
 	for i := 0; i < n; i++ {
+		vt := i%2 == 1
 		c := genCfg(rng)
+		if vt {
+			al0, dyn0 := c.allow, c.dyn
+			c = genVtCfg(rng, vtUnit, false)
+			c.allow, c.dyn = al0, dyn0
+		}
 		c.est = uint64(100 + rng.IntN(3)*100)
 		lim, al := c.realDyn()
 		ref := newRef(c, false)
@@ -623,8 +642,10 @@ func mwCampaign(o *hlib.Opts, r *hlib.Result, m *hlib.Model) {
 		var refP *refProfile
 		refOK := true
 		var pend *pending
+		var shift int64
 		profIP := netip.MustParseAddr("10.0.0.1")
 		var profLim agd.Ratelimiter = agd.GlobalRatelimiter{}
+		var ownLim *agd.DefaultRatelimiter
 		profLine := "noprof"
 		hasProf := rng.IntN(3) > 0
 		if hasProf && rng.IntN(3) > 0 {
@@ -633,6 +654,7 @@ func mwCampaign(o *hlib.Opts, r *hlib.Result, m *hlib.Model) {
 				rc.ClientSubnets = append(rc.ClientSubnets, genPrefix(rng))
 			}
 			profLim = agd.NewDefaultRatelimiter(rc, datasize.ByteSize(c.est))
+			ownLim = profLim.(*agd.DefaultRatelimiter)
 			refP = &refProfile{rps: int(rc.RPS), est: int(c.est), subnets: rc.ClientSubnets}
 			profLine = fmt.Sprintf("prof %d %d", rc.RPS, c.est)
 			for _, p := range rc.ClientSubnets {
@@ -658,7 +680,7 @@ func mwCampaign(o *hlib.Opts, r *hlib.Result, m *hlib.Model) {
 				return nil, nil, fmt.Errorf("not found: %w", errNotFound)
 			}
 		}
-		var respLen int
+		var respLen, upCalls int
 		srvDNS := stack.NewServer("dns", agd.ProtoDNS, true)
 		srvDoT := stack.NewServer("dot", agd.ProtoDoT, true, &agd.ServerBindData{AddrPort: netip.MustParseAddrPort("192.0.2.2:853")})
 		// Every protocol other than plain DNS is outside the limiter's reach.
@@ -673,6 +695,7 @@ func mwCampaign(o *hlib.Opts, r *hlib.Result, m *hlib.Model) {
 			ProfileDB: pdb,
 			Servers:   append([]*agd.Server{srvDNS}, others...),
 			Upstream: dnsserver.HandlerFunc(func(ctx context.Context, rw dnsserver.ResponseWriter, req *dns.Msg) error {
+				upCalls++
 				if respLen < 0 {
 					return nil
 				}
@@ -697,6 +720,19 @@ func mwCampaign(o *hlib.Opts, r *hlib.Result, m *hlib.Model) {
 
 				continue
 			}
+			if vt && rng.IntN(4) == 0 {
+				d := time.Duration(vtAges[rng.IntN(len(vtAges))]) * vtUnit
+				ratelimit.VerifC09AgeBackoff(lim, d)
+				if ownLim != nil {
+					agd.VerifC09Age(ownLim, d)
+				}
+				shift += int64(d)
+				lines = append(lines, fmt.Sprintf("age %d", int64(d)))
+				gots = append(gots, "ok")
+				r.Count("mw.vt_age")
+
+				continue
+			}
 			ip := genAddr(rng)
 			if hasProf && rng.IntN(2) == 0 {
 				ip = profIPs[rng.IntN(len(profIPs))]
@@ -706,29 +742,48 @@ func mwCampaign(o *hlib.Opts, r *hlib.Result, m *hlib.Model) {
 				qt = dns.TypeANY
 			}
 			respLen = genRespLen(rng, c.est, 500)
+			// (A handler that writes nothing cannot be exercised here: the
+			// production stack's `initial` middleware behind the limiter requires a
+			// response, so the limiter's `resp == nil` branches are unreachable.)
 			srv, limited := srvDNS, true
 			if rng.IntN(8) == 0 {
 				srv, limited = others[rng.IntN(len(others))], false
 				r.Count("mw.proto=" + srv.Protocol.String())
 			}
-			now := spin()
+			now := spin() + shift
 			sreq := &stack.Req{Server: srv, Msg: mkReq(qt), Remote: netip.AddrPortFrom(ip, 1234),
 				Local: netip.MustParseAddrPort("192.0.2.2:53")}
 			if srv.Protocol == agd.ProtoDoH {
 				sreq.ReqInfo = &dnsserver.RequestInfo{URL: &url.URL{Path: "/dns-query"}}
 			}
+			callsBefore := upCalls
 			out := st.Serve(ctx, sreq)
 			if out.Err != nil {
 				r.Disagree("mw-error", fmt.Sprintf("stack returned error %v", out.Err), lines)
 
 				break
 			}
+			// A request is dropped when it never reaches the handler behind the
+			// limiter; a handler that writes nothing is still a served request.
+			calls := upCalls - callsBefore
 			got := "served"
-			if out.Resp == nil && respLen >= 0 {
+			if calls == 0 {
 				got = "dropped"
 				dropped++
 			} else {
 				served++
+			}
+			if calls > 1 {
+				pend = newPending("mw-handled-twice", fmt.Sprintf("query %d from %s reached the handler behind the limiter %d times", j, ip, calls),
+					map[string]any{"campaign": "mw", "ops": append([]string{}, lines...)})
+			}
+			if calls == 0 && out.Resp != nil {
+				pend = newPending("drop-not-silent", fmt.Sprintf("query %d from %s never reached the handler but the client received a response (rcode %d)",
+					j, ip, out.Resp.Rcode), map[string]any{"campaign": "mw", "ops": append([]string{}, lines...)})
+			}
+			if calls > 0 && respLen >= 0 && out.Resp == nil {
+				pend = newPending("mw-response-lost", fmt.Sprintf("query %d from %s was handled but the client received nothing", j, ip),
+					map[string]any{"campaign": "mw", "ops": append([]string{}, lines...)})
 			}
 			lenArg := "-"
 			if respLen >= 0 {
@@ -738,10 +793,6 @@ func mwCampaign(o *hlib.Opts, r *hlib.Result, m *hlib.Model) {
 					// The message the client gets is the one CountResponses saw.
 					lenArg = fmt.Sprint(out.Resp.Len())
 				}
-			} else if out.Resp == nil {
-				// Nothing written by the handler: a drop and a silent handler
-				// are indistinguishable to the client; compare via model.
-				got = "silent"
 			}
 			gots = append(gots, got)
 			// The transport layer hands the middleware an unmapped address
@@ -750,7 +801,7 @@ func mwCampaign(o *hlib.Opts, r *hlib.Result, m *hlib.Model) {
 			isProf := hasProf && isProfIP(eff)
 			lines = append(lines, fmt.Sprintf("mw %s %d %s %d %s %s", b2s(limited), now, addrArgs(eff), qt, lenArg, b2s(isProf)))
 			// Property oracle: what the statement says must happen to this query.
-			if refOK && got != "silent" {
+			if refOK {
 				want, how := "served", "the protocol is not rate limited"
 				countLen := 0
 				if respLen >= 0 {
@@ -791,18 +842,18 @@ func mwCampaign(o *hlib.Opts, r *hlib.Result, m *hlib.Model) {
 				}
 			}
 		}
-		if time.Since(t0) > 400*time.Millisecond {
+		if time.Since(t0) > 400*time.Millisecond || (vt && time.Since(t0) > 4*vtUnit/10) {
 			r.Count("mw.discarded_slow")
 
 			continue
+		}
+		if vt {
+			r.Count("mw.vt_cases")
 		}
 		pend.raise(r)
 		answers := m.Batch(lines)[pre:]
 		for j := range gots {
 			want := answers[j]
-			if gots[j] == "silent" {
-				continue
-			}
 			if gots[j] != want {
 				r.Disagree("mw", fmt.Sprintf("stack=%s model=%s at step %d", gots[j], want, j),
 					map[string]any{"campaign": "mw", "ops": lines[:pre+j+1]})
